@@ -281,7 +281,8 @@ def build(prog, ntags=0, stream_kwargs=None, sink_factory=None):
         elif k == "pluck":
             s = U[0].pluck(list(nd["lits"]) if nd["b1"] else nd["lits"][0])
         elif k == "collect":
-            s = U[0].collect()
+            # (b1: the caller supplies the container -- same semantics, another construction path)
+            s = U[0].collect(cache=__import__("collections").deque()) if nd.get("b1") else U[0].collect()
         elif k == "union":
             s = U[0].union(*U[1:])
         elif k == "zip":
